@@ -608,9 +608,10 @@ func reindexObserve(u *univ.Universe, packs map[string][]byte, dir string, maxFi
 }
 
 // dpExplore emits two segments per crash state:
-//  A: rebuild the index from the pack files alone, observe;
-//  B: reopen with the surviving index, observe, go on with further operations (the client retries the
-//     interrupted call and continues), observe, then rebuild the index from the packs and observe again.
+//
+//	A: rebuild the index from the pack files alone, observe;
+//	B: reopen with the surviving index, observe, go on with further operations (the client retries the
+//	   interrupted call and continues), observe, then rebuild the index from the packs and observe again.
 func dpExplore(u *univ.Universe, st crashState, dir string, rest []drv.Op, maxFile int, evs *[]gate.Event) error {
 	defer os.RemoveAll(dir)
 	defer os.RemoveAll(dir + ".re")
